@@ -821,3 +821,153 @@ func sortedKeys(m map[string]bool) []string {
 }
 
 var _ = strings.Join
+
+// ---------------------------------------------------------------- SPHERE-RADIUS
+
+// sphereRadius: every vertex the constructor writes into any of its vertex lists lies on the sphere of the
+// given radius about the origin (|p|² = radius² modulo sin² + cos² = 1) — pole constants included —, or is a
+// copy of an element of such a list; allowCentre admits the origin itself (the hemisphere's base centre).
+// Independent of whether normals are supplied.
+func (k *checker) sphereRadius(r *rec, fn *ssa.Function, allowCentre bool) {
+	sd := k.runSolid(r, fn)
+	if sd == nil {
+		return
+	}
+	s := k.s
+	und := func(msg string) { r.undecide("SPHERE-RADIUS", sd.cons, sd.pos, msg) }
+	bad := func(at token.Pos, msg string) { r.violate("SPHERE-RADIUS", sd.cons, k.c.P.Pos(at), msg) }
+	type val struct {
+		v    vec
+		raw  c17.Val
+		pos  token.Pos
+		list string
+	}
+	var vals []val
+	written := map[string]bool{}
+	seen := map[string]bool{}
+	for _, p := range sd.res.Paths {
+		for _, ev := range p.Events {
+			if ev.In != sd.fn || ev.Slice == nil {
+				continue
+			}
+			var vs []c17.Val
+			switch ev.Kind {
+			case c17.EvAppend:
+				vs = ev.Args
+			case c17.EvStoreElem:
+				if len(ev.Path) == 0 {
+					vs = []c17.Val{ev.Val}
+				}
+			}
+			for _, x := range vs {
+				v, ok := leaves3(x)
+				if !ok {
+					continue
+				}
+				id := c17.SliceID(ev.Slice)
+				for m := range sd.fl.family(id) {
+					written[m] = true
+				}
+				key := fmt.Sprint(ev.Pos) + "|" + s.ValKey(x)
+				if !seen[key] {
+					seen[key] = true
+					vals = append(vals, val{v, x, ev.Pos, id})
+				}
+			}
+		}
+	}
+	// only the lists that feed the Position attribute count as vertex lists (not a Normal array filled here):
+	// the Position array's versions, and the lists its elements are copied from
+	posV, _, _ := sd.attrs()
+	vertexList := map[string]bool{}
+	if pi, ok := c17.SliceInfoOf(posV); ok {
+		for m := range sd.fl.family(pi.ID) {
+			vertexList[m] = true
+		}
+	} else {
+		und("the Position attribute of the mesh was not found")
+		return
+	}
+	for changed := true; changed; {
+		changed = false
+		for _, v := range vals {
+			if !vertexList[v.list] {
+				continue
+			}
+			if d, ok := s.SymbolOf(v.v[0]); ok && d.Kind == c17.SymElem && !vertexList[d.Slice] {
+				for m := range sd.fl.family(d.Slice) {
+					vertexList[m] = true
+				}
+				changed = true
+			}
+		}
+	}
+	kept := vals[:0]
+	for _, v := range vals {
+		if vertexList[v.list] {
+			kept = append(kept, v)
+		}
+	}
+	vals = kept
+	if len(vals) == 0 {
+		und("no vertex written by the constructor could be followed")
+		return
+	}
+	var R *c17.Scalar
+	onSphere, copies, centre := 0, 0, 0
+	for _, v := range vals {
+		// a copy of an element of a list this constructor fills (unwelded meshes re-emit their vertices per triangle)
+		isCopy := true
+		src, idx := "", ""
+		for c := 0; c < 3; c++ {
+			d, ok := s.SymbolOf(v.v[c])
+			if !ok || d.Kind != c17.SymElem || (src != "" && (d.Slice != src || d.Idx != idx)) {
+				isCopy = false
+				break
+			}
+			src, idx = d.Slice, d.Idx
+		}
+		if isCopy {
+			if !written[src] {
+				bad(v.pos, "a vertex is copied from "+src+", a list whose vertices this constructor does not write")
+				return
+			}
+			copies++
+			continue
+		}
+		r2 := s.ReduceTrig(k.dot(v.v, v.v))
+		if z, isC := s.ConstSign(r2); isC && z == 0 {
+			if !allowCentre {
+				bad(v.pos, "the vertex "+short(s.Describe(v.raw), 80)+" is the centre of the sphere, not a point on it")
+				return
+			}
+			centre++
+			continue
+		}
+		found := false
+		for i := range sd.floats {
+			f := sd.floats[i]
+			if s.Equal(r2, k.e.Mul(f, f)) {
+				if R != nil && s.Key(*R) != s.Key(f) {
+					bad(v.pos, "vertices lie on spheres of different radii")
+					return
+				}
+				R, found = &f, true
+			}
+		}
+		if !found {
+			bad(v.pos, "the vertex "+short(s.Describe(v.raw), 100)+" has |p|² = "+short(s.Show(r2, 5), 120)+" (modulo sin² + cos² = 1), not radius²: it does not lie on the sphere of the given radius about the origin — the polyhedron is not the one inscribed for these parameters (wrong volume whenever that differs from the radius)")
+			return
+		}
+		onSphere++
+	}
+	if R == nil {
+		bad(token.NoPos, "no vertex lies on a sphere about the origin")
+		return
+	}
+	fact := fmt.Sprintf("%d vertex expression(s) — poles and ring vertices — satisfy |p|² = %s² modulo sin² + cos² = 1; %d are copies of elements of the lists those are written to", onSphere, s.Key(*R), copies)
+	if centre > 0 {
+		fact += fmt.Sprintf("; %d is the origin (the centre of the flat base)", centre)
+	}
+	r.hold("SPHERE-RADIUS", sd.cons, sd.pos, fact)
+}
